@@ -211,7 +211,12 @@ func (p *Pkg) typeExpr(e ast.Expr) string {
 			if dir, ok := p.Imports[id.Name]; ok {
 				return dir + ":" + x.Sel.Name
 			}
+			if (id.Name == "io" && (x.Sel.Name == "Writer" || x.Sel.Name == "Reader")) || (id.Name == "bytes" && x.Sel.Name == "Buffer") {
+				return "io"
+			}
 		}
+	case *ast.MapType:
+		return "map<" + p.typeExpr(x.Key) + ">" + p.typeExpr(x.Value)
 	case *ast.InterfaceType:
 		return "interface"
 	}
@@ -234,6 +239,26 @@ func srcOf(e ast.Expr) string {
 	return "?"
 }
 
+// mapParts splits "map<K>V".
+func mapParts(t string) (k, v string, ok bool) {
+	if !strings.HasPrefix(t, "map<") {
+		return "", "", false
+	}
+	depth := 0
+	for i := 3; i < len(t); i++ {
+		switch t[i] {
+		case '<':
+			depth++
+		case '>':
+			depth--
+			if depth == 0 {
+				return t[4:i], t[i+1:], true
+			}
+		}
+	}
+	return "", "", false
+}
+
 func splitQual(t string) (dir, name string, ok bool) {
 	i := strings.LastIndex(t, ":")
 	if i < 0 {
@@ -245,6 +270,9 @@ func splitQual(t string) (dir, name string, ok bool) {
 // underlying resolves named non-struct types to their definition.
 func underlying(t string) string {
 	for i := 0; i < 8; i++ {
+		if strings.HasPrefix(t, "[") || strings.HasPrefix(t, "map<") || strings.HasPrefix(t, "*") {
+			return t
+		}
 		dir, name, ok := splitQual(t)
 		if !ok {
 			return t
@@ -264,6 +292,9 @@ func underlying(t string) string {
 
 func fieldType(t string, field string) string {
 	t = strings.TrimPrefix(t, "*")
+	if strings.HasPrefix(t, "[") || strings.HasPrefix(t, "map<") {
+		return "?"
+	}
 	dir, name, ok := splitQual(t)
 	if !ok {
 		return "?"
@@ -316,6 +347,9 @@ func (p *Pkg) typeOf(en env, e ast.Expr) string {
 		if strings.HasPrefix(t, "[]") {
 			return t[2:]
 		}
+		if _, vt, ok := mapParts(t); ok {
+			return vt
+		}
 	case *ast.SliceExpr:
 		return p.typeOf(en, x.X)
 	case *ast.CallExpr:
@@ -323,6 +357,10 @@ func (p *Pkg) typeOf(en env, e ast.Expr) string {
 			switch id.Name {
 			case "byte", "uint8", "uint16", "uint32", "uint64", "int32", "int64":
 				return id.Name
+			case "new":
+				if len(x.Args) == 1 {
+					return "*" + p.typeExpr(x.Args[0])
+				}
 			}
 			if _, ok := p.Named[id.Name]; ok {
 				return p.qual(id.Name)
@@ -521,11 +559,37 @@ func (w *walker) call(c *ast.CallExpr) (toks []Tok, handled bool) {
 			return w.inlineFunc(fd, c), true
 		}
 	}
+	// helpers that are handed the reader / writer: other methods of the receiver, package-level
+	// functions of this or another repository package — followed in Deep mode
+	if Deep && w.hasIOArg(c) {
+		if sel, ok := c.Fun.(*ast.SelectorExpr); ok {
+			if id, ok := sel.X.(*ast.Ident); ok {
+				if id.Name == w.recvID && !isCodecMethod(sel.Sel.Name) {
+					if fd, ok := w.p.Funcs[w.recv+"."+sel.Sel.Name]; ok {
+						return w.inlineIn(w.p, w.recv+"."+sel.Sel.Name, fd), true
+					}
+				}
+				if dir, ok := w.p.Imports[id.Name]; ok {
+					q := Load(dir)
+					if fd, ok := q.Funcs[sel.Sel.Name]; ok && fd.Recv == nil {
+						return w.inlineIn(q, sel.Sel.Name, fd), true
+					}
+				}
+			}
+		}
+		if id, ok := c.Fun.(*ast.Ident); ok {
+			if fd, ok := w.p.Funcs[id.Name]; ok && fd.Recv == nil {
+				return w.inlineIn(w.p, id.Name, fd), true
+			}
+		}
+	}
 	// method calls X.Serialize…(w, …) / X.Deserialize…(r, …)
 	if sel, ok := c.Fun.(*ast.SelectorExpr); ok && isCodecMethod(sel.Sel.Name) && len(c.Args) >= 1 {
-		a0 := w.f.Src(c.Args[0])
-		if a0 != "w" && a0 != "r" && a0 != "buf" && a0 != "reader" {
-			return nil, false
+		if !w.hasIOArg(c) {
+			a0 := w.f.Src(c.Args[0])
+			if a0 != "w" && a0 != "r" && a0 != "buf" && a0 != "reader" {
+				return nil, false
+			}
 		}
 		// on the receiver itself: inline the sibling method
 		if id, ok := sel.X.(*ast.Ident); ok && id.Name == w.recvID {
@@ -538,7 +602,7 @@ func (w *walker) call(c *ast.CallExpr) (toks []Tok, handled bool) {
 			return []Tok{{K: "raw", N: int64(s)}}, true
 		}
 		dir, name, ok := splitQual(t)
-		if !ok || t == "interface" {
+		if !ok || t == "interface" || strings.HasPrefix(t, "[") || strings.HasPrefix(t, "map<") {
 			return []Tok{{K: "dyn", S: w.f.Src(sel.X)}}, true
 		}
 		q := Load(dir)
@@ -547,6 +611,11 @@ func (w *walker) call(c *ast.CallExpr) (toks []Tok, handled bool) {
 				return []Tok{{K: "dyn", S: name}}, true
 			}
 			return []Tok{{K: "dyn", S: name}}, true
+		}
+		if Deep {
+			if fd, ok := q.Funcs[name+"."+sel.Sel.Name]; ok {
+				return w.inlineIn(q, name+"."+sel.Sel.Name, fd), true
+			}
 		}
 		// embedded struct of the receiver type defined elsewhere, or a field: call token
 		kind := "call"
@@ -564,6 +633,28 @@ func (w *walker) call(c *ast.CallExpr) (toks []Tok, handled bool) {
 		return []Tok{{K: kind, S: name + suffix}}, true
 	}
 	return nil, false
+}
+
+// Deep makes the tokenizer inline every callee (other types' methods, helper functions) instead
+// of emitting call tokens; guards stay in the stream.  Used for writer/reader symmetry of large types.
+var Deep bool
+
+func (w *walker) hasIOArg(c *ast.CallExpr) bool {
+	for _, a := range c.Args {
+		if w.p.typeOf(w.en, a) == "io" {
+			return true
+		}
+	}
+	return false
+}
+
+func (w *walker) inlineIn(q *Pkg, key string, fd *ast.FuncDecl) []Tok {
+	if w.depth > 8 {
+		return []Tok{{K: "other", S: "depth"}}
+	}
+	w2 := newWalker(q, q.FileOf[key], fd, w.read)
+	w2.depth = w.depth + 1
+	return w2.block(fd.Body.List)
 }
 
 func (w *walker) inlineMethod(fd *ast.FuncDecl) []Tok {
@@ -764,10 +855,18 @@ func (w *walker) stmt(s ast.Stmt) []Tok {
 		res = append(res, body...)
 		return append(res, Tok{K: "close"})
 	case *ast.RangeStmt:
-		t := w.p.typeOf(w.en, x.X)
+		t := underlying(strings.TrimPrefix(w.p.typeOf(w.en, x.X), "*"))
 		if strings.HasPrefix(t, "[]") {
 			if id, ok := x.Value.(*ast.Ident); ok && x.Value != nil {
 				w.en[id.Name] = t[2:]
+			}
+		}
+		if kt, vt, ok := mapParts(t); ok {
+			if id, ok := x.Key.(*ast.Ident); ok && x.Key != nil {
+				w.en[id.Name] = kt
+			}
+			if id, ok := x.Value.(*ast.Ident); ok && x.Value != nil {
+				w.en[id.Name] = vt
 			}
 		}
 		body := w.block(x.Body.List)
@@ -823,7 +922,8 @@ func (w *walker) stmt(s ast.Stmt) []Tok {
 		if x.Init != nil {
 			res = append(res, w.calls(x.Init)...)
 		}
-		res = append(res, Tok{K: "other", S: "switch " + w.f.Src(x.Tag)})
+		// dispatch on a decoded field (the case bodies are not walked)
+		res = append(res, Tok{K: "dyn", S: "switch " + w.f.Src(x.Tag)})
 		return res
 	case *ast.ReturnStmt:
 		return w.calls(x)
@@ -909,4 +1009,75 @@ func PrintMakes(name string, ss []Stream) {
 		fmt.Printf("  (%s, %s)%s\n", ex.LeanStr(s.Name), ex.StrList(s.Makes), sep)
 	}
 	fmt.Println("]")
+}
+
+// ---------------------------------------------------------------- field coverage
+
+// StructFields lists the field names of a struct type (embedded fields by their type name).
+func StructFields(dir, name string) []string {
+	p := Load(dir)
+	st, ok := p.Structs[name]
+	if !ok {
+		ex.Die("%s: struct %s not found", dir, name)
+	}
+	var res []string
+	for _, f := range st.Fields.List {
+		if len(f.Names) == 0 {
+			_, en, _ := splitQual(strings.TrimPrefix(p.typeExpr(f.Type), "*"))
+			res = append(res, en)
+			continue
+		}
+		for _, n := range f.Names {
+			res = append(res, n.Name)
+		}
+	}
+	sort.Strings(res)
+	return res
+}
+
+// FieldMentions lists the fields of the receiver that <recv>.<method> mentions, following calls
+// to other methods of the same receiver (recv.helper(…)).
+func FieldMentions(dir, recv, method string) []string {
+	p := Load(dir)
+	fields := map[string]bool{}
+	for _, f := range StructFields(dir, recv) {
+		fields[f] = true
+	}
+	seen := map[string]bool{}
+	found := map[string]bool{}
+	var visit func(m string)
+	visit = func(m string) {
+		if seen[m] {
+			return
+		}
+		seen[m] = true
+		fd, ok := p.Funcs[recv+"."+m]
+		if !ok || fd.Body == nil || len(fd.Recv.List[0].Names) == 0 {
+			return
+		}
+		id := fd.Recv.List[0].Names[0].Name
+		ast.Inspect(fd.Body, func(n ast.Node) bool {
+			sel, ok := n.(*ast.SelectorExpr)
+			if !ok {
+				return true
+			}
+			x, ok := sel.X.(*ast.Ident)
+			if !ok || x.Name != id {
+				return true
+			}
+			if fields[sel.Sel.Name] {
+				found[sel.Sel.Name] = true
+			} else if _, isMethod := p.Funcs[recv+"."+sel.Sel.Name]; isMethod {
+				visit(sel.Sel.Name)
+			}
+			return true
+		})
+	}
+	visit(method)
+	var res []string
+	for f := range found {
+		res = append(res, f)
+	}
+	sort.Strings(res)
+	return res
 }
